@@ -1,3 +1,4 @@
+import SkimModel.Driver.C01
 import SkimModel.Driver.C15
 import SkimModel.Driver.C18
 open SkimModel.Driver
@@ -14,6 +15,7 @@ def answer (line : String) : String :=
       match C18.handle case with
       | .ok (m, s) => m ++ "\t" ++ (if impl == s then "ok" else "bad:differs-from-reference-editor")
       | .error e => "error:" ++ e ++ "\terror"
+    | "C01" | "C14" | "C05" | "C10S" => C01.answer case impl
     | "C15" => C15.answer case impl
     | _ => "error:unknown-property\terror"
   | _ => "error:bad-line\terror"
